@@ -68,6 +68,20 @@ def rw_frame(t, rnd):
 
 
 def rw_number(t, rnd):
+    # one time in ten: pad ONE number of the line with as many leading zeros as the line-length limit (99 filtered characters) allows
+    if rnd.random() < 0.1:
+        ms = list(NUM.finditer(t))
+        room = 99 - (len(t.replace(" ", "")) + 1)
+        if ms and room >= 12:
+            m = rnd.choice(ms)
+            z = min(room, rnd.choice([room, room - 1, 27, 28, 29, 30, 45, 60]))
+            body = m.group(2)
+            if body[:2].lower() == "0x":
+                body = body[:2] + "0" * z + body[2:]
+            else:
+                body = "0" * z + body
+            return t[:m.start(2)] + body + t[m.end(2):]
+
     def f(m):
         sign, body = m.group(1), m.group(2)
         val = int(body[2:], 16) if body[:2].lower() == "0x" else int(body, 10)
